@@ -125,7 +125,7 @@ pub fn judge_from(dir: &std::path::Path, bands: &[BandState], desc: &str, deep: 
             continue;
         }
         let full = ref_stitch(&snap, id as u32);
-        let subtrees: &[&str] = if deep { &["/", "/a", "/b", "/a-b", "/zz"] } else { &["/", "/a", "/zz"] };
+        let subtrees: &[&str] = if deep { &["/", "/a", "/b", "/a-b", "/zz"] } else { &["/", "/a"] };
         let excludes: &[Option<&str>] = if deep { &[None, Some("/a"), Some("x"), Some("/b")] } else { &[None, Some("/a")] };
         for subtree in subtrees.iter().cloned() {
             for exclude in excludes.iter().cloned() {
@@ -287,6 +287,7 @@ pub fn run(report: &Report, budget: &Budget) {
     let mut archives_total = 0u64;
     let mut archives_done = 0u64;
     let mut complete = true;
+    let t_start = std::time::Instant::now();
     for (np, nb, extra, alphabet) in sweeps {
         let states = band_states(np, extra);
         let n = states.len().pow(nb as u32);
@@ -325,6 +326,7 @@ pub fn run(report: &Report, budget: &Budget) {
         }
         report.set(&format!("sweep_{np}_paths_{nb}_bands_{}_completed", if alphabet[1] == "/b" { "alphabet1" } else { "alphabet2" }), json!({"band_states": states.len(), "archives": n, "with_headless_and_lost_hunk_states": extra}));
     }
+    report.set("seconds_after_basic_sweeps", json!(t_start.elapsed().as_secs_f64()));
     // Empty hunks: a hunk holding the empty list is legal (old versions wrote them) and is one more
     // way "how entries are split into hunks". Exactly one band of the archive gets one empty hunk
     // at every position of every layout; the other bands range over the basic states.
@@ -378,6 +380,7 @@ pub fn run(report: &Report, budget: &Budget) {
             report.set("sweep_one_band_with_an_empty_hunk_completed", json!({"paths": np, "bands": nb, "states_with_empty_hunk": with_empty.len(), "archives": n}));
         }
     }
+    report.set("seconds_after_empty_hunk_sweep", json!(t_start.elapsed().as_secs_f64()));
     // Band ids with more digits and with every digit: the same arrangements at ids 8-10, 98-100 and
     // 9998-10000 (the directory name grows from four to five digits between the last two).
     if complete {
@@ -423,6 +426,7 @@ pub fn run(report: &Report, budget: &Budget) {
             report.set("sweep_high_band_ids_completed", json!({"paths": np, "bands": nb, "first_ids": bases, "archives": n}));
         }
     }
+    report.set("seconds_after_high_id_sweep", json!(t_start.elapsed().as_secs_f64()));
     for o in OUTCOMES.lock().unwrap().iter() {
         report.outcome(o.clone());
     }
